@@ -159,9 +159,10 @@ func (k Keeper) WithdrawEarnedFees(ctx sdk.Context, owner, provider sdk.AccAddre
 
 		k.DeleteEarnedFees(ctx, provider)
 
-		if earnedFees.Equal(ownerEarnedFees) {
-			k.DeleteOwnerEarnedFees(ctx, owner)
-		} else {
+		// remove the stored tallies first: a denom that drops to zero is not
+		// part of the remainder and would otherwise keep its old value
+		k.DeleteOwnerEarnedFees(ctx, owner)
+		if !earnedFees.Equal(ownerEarnedFees) {
 			k.SetOwnerEarnedFees(ctx, owner, ownerEarnedFees.Sub(earnedFees...))
 		}
 
